@@ -13,6 +13,7 @@ pub enum Src {
     Struct,
     Mutate,
     Corpus,
+    Subst,
 }
 impl Src {
     pub fn name(self) -> &'static str {
@@ -23,6 +24,7 @@ impl Src {
             Src::Struct => "g_struct",
             Src::Mutate => "g_mutate",
             Src::Corpus => "g_corpus",
+            Src::Subst => "g_subst",
         }
     }
 }
@@ -54,11 +56,11 @@ impl StreamCfg {
     }
     pub fn describe(&self) -> String {
         format!(
-            "G-wide: all sequences of <= {} subtags over {} boundary-class tokens ({} inputs); G-narrow: <= {} over {} tokens ({}); G-langid: <= {} over {} tokens ({}); {} rendered random well-formed locales; {} near-miss mutations (1-3 edits); corpus x {} suffixes: {}",
+            "G-wide: all sequences of <= {} subtags over {} boundary-class tokens ({} inputs); G-narrow: <= {} over {} tokens ({}); G-langid: <= {} over {} tokens ({}); {} rendered random well-formed locales; {} near-miss mutations (1-3 edits, one third directly after the unmutated input); byte-substitution sweep (every position of {} identifiers x 256 byte values, each after its original); corpus x {} suffixes: {}",
             self.wide_len, gen::WIDE.len(), gen::seq_space(gen::WIDE.len(), self.wide_len),
             self.narrow_len, gen::NARROW.len(), gen::seq_space(gen::NARROW.len(), self.narrow_len),
             self.langid_len, gen::LANGID_ALPHA.len(), gen::seq_space(gen::LANGID_ALPHA.len(), self.langid_len),
-            self.n_struct, self.n_mutate, gen::SUFFIXES.len(), self.corpus
+            self.n_struct, self.n_mutate, gen::SUBST_POOL.len(), gen::SUFFIXES.len(), self.corpus
         )
     }
 }
@@ -119,6 +121,12 @@ pub fn byte_stream(ctx: &mut Ctx, cfg: &StreamCfg, f: &mut dyn FnMut(&mut Ctx, &
             gen::render_random(&sl.tokens(), &mut r)
         };
         let b = gen::mutate(&base, &mut r);
+        if i % 3 == 1 {
+            // the unmutated input directly before its near miss (an answer remembered from the
+            // well-formed call must not leak into the ill-formed one)
+            mon::begin_case(&base);
+            f(ctx, &base, Src::Mutate);
+        }
         mon::begin_case(&b);
         f(ctx, &b, Src::Mutate);
         if r.chance(1, 8) {
@@ -131,6 +139,30 @@ pub fn byte_stream(ctx: &mut Ctx, cfg: &StreamCfg, f: &mut dyn FnMut(&mut Ctx, &
         prev = b;
     }
     ctx.rng_state = None;
+    if cfg.corpus {
+        // byte-substitution sweep: every position of every pool identifier x all 256 byte values,
+        // each near miss directly after the identifier it was made from
+        let mut idx = 0usize;
+        for base in gen::SUBST_POOL {
+            let base = base.as_bytes();
+            for pos in 0..base.len() {
+                if idx % n == shard {
+                    let mut b = base.to_vec();
+                    for val in 0..=255u8 {
+                        if val == base[pos] {
+                            continue;
+                        }
+                        b[pos] = val;
+                        mon::begin_case(base);
+                        f(ctx, base, Src::Subst);
+                        mon::begin_case(&b);
+                        f(ctx, &b, Src::Subst);
+                    }
+                }
+                idx += 1;
+            }
+        }
+    }
     if cfg.corpus {
         let mut idx = 0usize;
         for s in &corpus {
